@@ -145,6 +145,7 @@ class SmtpSession(object):
         self._call_validator('tls')
         self._call_validator('tls2', ssl_socket)
         self.security = 'TLS'
+        self.auth = None
 
     def AUTH(self, reply, creds):
         self._call_validator('auth', reply, creds)
